@@ -83,6 +83,7 @@ theorem elementwise_spec (t : ElemTask α) (len : Nat) (hna : NoCrossAlias len t
       rw [List.find?_eq_none]
       intro i hi
       simp [ElemTask.w, hx i (List.mem_range.mp hi)]
+    simp only
     rw [this]
 
 /-- Any interleaving at element granularity (any permutation of the index list
